@@ -577,7 +577,111 @@ fn main() {
             }
         }
     }
+    // (6) degree universe for the COUNTED covers: a seeded change of the canonicity test of the
+    //     low-index enumeration (only forward-generator columns compared) silently omits
+    //     classes, but only with a non-involutory generator, a second generator and k >= 4 —
+    //     i.e. at degrees 4..6 on the smallest symbols.  All 2D symbols with n <= 2 (quick) /
+    //     n <= 3 (thorough) and every degree m = r*v <= 6; 3D two-chamber symbols with every
+    //     degree <= 4 (all assignments up to a cap, a seeded sample beyond); three hard-coded
+    //     symbols; the cube rotation group at k = 24 against the known S4 histogram.
+    {
+        let k2 = if th { 5 } else { 4 };
+        for n in 1..=(if th { 3 } else { 2 }) {
+            for t in dsets(2, n, true, true, false) {
+                let k = if n == 3 { 4 } else { k2 };
+                for s in all_degrees(&t, 6, usize::MAX, &mut rng) {
+                    covers_case(&mut ctx, &s, k, true, &format!("nt degrees dim=2 size={} k={}", n, k));
+                }
+            }
+        }
+        for t in dsets(3, 2, true, true, false) {
+            for s in all_degrees(&t, 4, if th { 120 } else { 24 }, &mut rng) {
+                covers_case(&mut ctx, &s, 4, true, "nt degrees dim=3 size=2 k=4");
+            }
+        }
+        for txt in ["<1.1:2:2,2,2:4,3>", "<1.1:2:2,2,2:4,4>", "<1.1:2 3:2,2,2,2:4,2,3>"] {
+            let t = parse_symbol(txt);
+            covers_case(&mut ctx, &t, 4, true, &format!("nt regress canonicity dim={} size=2 k=4", t.dim));
+        }
+        // S4 = rotation group of the cube: classes of subgroups by index (tools/c05_known_counts.py)
+        let mut known = vec![0usize; 24];
+        for (j, c) in [(1, 1), (2, 1), (3, 1), (4, 1), (6, 3), (8, 1), (12, 2), (24, 1)] {
+            known[j - 1] = c;
+        }
+        covers_known_case(&mut ctx, &parse_symbol("<1.1:2:2,2,2:4,3>"), if th { 24 } else { 12 }, &known, "nt regress canonicity dim=2 size=2 known=S4");
+    }
     ctx.finish();
+}
+
+/// every branching assignment with all degrees m = r*v <= max_m (up to `cap` symbols, a seeded
+/// sample of `cap` beyond)
+fn all_degrees(t: &Tab, max_m: usize, cap: usize, rng: &mut Rng) -> Vec<Tab> {
+    let mut orbits: Vec<(usize, usize, usize)> = vec![];
+    for i in 0..t.dim {
+        for d in t.orbit_reps2(i) {
+            let r = t.r(i, i + 1, d);
+            if r > max_m {
+                return vec![];
+            }
+            orbits.push((i, d, max_m / r));
+        }
+    }
+    let total = orbits.iter().fold(1usize, |a, o| a.saturating_mul(o.2));
+    let mut out = vec![];
+    if total <= cap {
+        let mut idx = vec![1usize; orbits.len()];
+        loop {
+            let mut s = t.clone();
+            for (k, &(i, d, _)) in orbits.iter().enumerate() {
+                s.set_v_orbit(i, d, idx[k]);
+            }
+            out.push(s);
+            let mut k = 0;
+            loop {
+                if k >= orbits.len() {
+                    return out;
+                }
+                idx[k] += 1;
+                if idx[k] <= orbits[k].2 {
+                    break;
+                }
+                idx[k] = 1;
+                k += 1;
+            }
+        }
+    }
+    for _ in 0..cap {
+        let mut s = t.clone();
+        for &(i, d, vmax) in orbits.iter() {
+            s.set_v_orbit(i, d, 1 + rng.below(vmax));
+        }
+        out.push(s);
+    }
+    out
+}
+
+/// `covers` with the number of entries per sheet number compared with a known histogram
+/// (`known[j-1]` classes of index j); the Spec's own count oracle is applied up to 5 sheets
+fn covers_known_case(ctx: &mut Ctx, t: &Tab, k: usize, known: &[usize], tags: &str) {
+    if !ctx.peek_mine() {
+        ctx.skip();
+        return;
+    }
+    let gd = group_data(t, |g| coset_tables(g.nr_generators(), &g.relators, k).collect());
+    ctx.case(
+        "covers",
+        tags,
+        || format!("{} {} 2 {} {}", t.enc(), k, enc_list(&known[..k]), gd.as_deref().unwrap_or(NO_GROUP)),
+        || {
+            let cs = covers(&t.to_partial_dsym(), k);
+            let mut s = cs.len().to_string();
+            for c in &cs {
+                s.push(' ');
+                s.push_str(&enc_sym(c));
+            }
+            s
+        },
+    );
 }
 
 /// the text form `<a.b:size [dim]:op_0,...,op_dim:m_01-orbits,...>` read by a few lines of our
